@@ -16,7 +16,7 @@ for pid in props:
       'quick_cmd': f'./vcheck {pid} quick',
       'thorough_cmd': f'./vcheck {pid} thorough',
       'evidence_file': f'/verif/evidence/{pid}.json',
-      'replay_cmd_template': '/venv/bin/python {path}',
+      'replay_cmd_template': '/verif/vreplay {path}',
       'engine': c.get('engine', 'symx'),
       'level_claimed': {'category': c.get('level', MC), 'text': c['text'], 'design_ref': c['ref']},
       'level_note': c['note'],
